@@ -7,7 +7,8 @@
 3. Correspondence (i): the Lean model of compile.rs vs the real compiler (hook `verif_terms`) on a
    systematic family of definition nests and seeded random nests: the whole term table, entry by
    entry (term ids, argument kinds, variable skips, CallType); the compiled standard library:
-   sequence of all CallDefs.  Model of `Stack::next` vs the real stack.rs on scripted iterators.
+   sequence of all CallDefs.  Models of `Stack::next`/`size_hint` (flat and nested stacks), `fold`
+   and `Drop for List` vs the real stack.rs / fold.rs / rc_lazy_list.rs on scripted iterators.
 4. Runtime (what no model exhibits): every tail nest of the family and every built-in loop runs
    in a thread with a FIXED small stack at N and 2N iterations, for values, for paths and under
    first/limit/label, in a process with a counting allocator: must complete; peak live heap
@@ -15,6 +16,7 @@
 """
 import concurrent.futures
 import os
+import re
 import subprocess
 
 import verif
@@ -323,6 +325,55 @@ def run(ctx):
                              lambda cid, req, real, m: "stack:" + req)
     ctx.log("Stack::next traces: %d scripts, %d disagreements" % (len(st), st_bad))
 
+    # 3d. a Stack of Stacks: Stack::size_hint (be431db) vs Stack.hintZero (mutual_trampoline_bounded)
+    nst2 = 20000 if thorough else 3000
+    st2 = [l.split("\t") for l in ctx.harness(["c04", "nstack", str(nst2)]).splitlines() if l]
+    st2_bad = verif.diff_corr(ctx, [(c[0], c[1], c[2]) for c in st2], "c04-nstack",
+                              lambda cid, req, real, m: "nstack:" + req)
+    nested_live = len([c for c in st2 if any("/" in t and not t.endswith("/0") for t in c[2].split(" "))])
+    ctx.log("nested Stack traces: %d scripts (%d with a live nested stack after a pull), %d disagreements"
+            % (len(st2), nested_live, st2_bad))
+
+    # 3d'. the adapters of `,`: real once/Chain/once_with().flatten() vs the model `Ad` (trampoline_bounded_comma_shapes)
+    ad = [l.split("\t") for l in ctx.harness(["c04", "adapters", "20000" if thorough else "3000"]).splitlines() if l]
+    ad_bad = verif.diff_corr(ctx, [(c[0], c[1], c[2]) for c in ad], "c04-adapters",
+                             lambda cid, req, real, m: "adapters:" + req)
+    ctx.log("adapter traces: %d terms (%d distinct), %d disagreements" % (len(ad), len({c[1] for c in ad}), ad_bad))
+
+    # 3e. run-time tie of fold.rs / rc_lazy_list.rs: the REAL source files (compiled into
+    #     harness/src/bin/c04_rt.rs) on seeded scripted inputs vs `Fold.turn` / `LL.iterDrop`
+    rt_bin = os.path.join(verif.HARNESS, "target", "debug", "c04_rt")   # built by ctx.build_harness()
+
+    def c04_rt(args):
+        p = subprocess.run([rt_bin] + args, timeout=900,
+                           env={**os.environ, **verif.OFFLINE_ENV, "VERIF_SEED": str(ctx.seed), "VERIF_TIER": ctx.tier},
+                           stdout=subprocess.PIPE, stderr=subprocess.PIPE, text=True, errors="replace")
+        if p.returncode != 0:
+            raise verif.CheckError("c04_rt %s failed (%d): %s" % (args, p.returncode, p.stderr[-3000:]))
+        cases = [tuple(l.split("\t")) for l in p.stdout.splitlines() if l]
+        broken = [c for c in cases if len(c) != 3 or "BUG-probe" in c[2]]
+        if broken or not cases:
+            raise verif.CheckError("c04_rt %s: instrumentation broken: %r" % (args, broken[:3]))
+        return cases
+
+    nfold, nll = (20000, 3000) if thorough else (2000, 500)
+    fo = c04_rt(["fold", str(nfold)])
+    fo_bad = verif.diff_corr(ctx, fo, "c04-fold", lambda cid, req, real, m: "fold:" + req)
+    ll = c04_rt(["lldrop", str(nll)])
+    ll_bad = verif.diff_corr(ctx, ll, "c04-lldrop", lambda cid, req, real, m: "lldrop:" + req)
+    ctx.log("fold traces: %d cases, %d disagreements; Drop for List: %d chains (longest %d nodes), %d disagreements"
+            % (len(fo), fo_bad, len(ll),
+               max(sum(int(t.split("x")[1]) for t in c[1].split()[1:-1]) + 1 for c in ll), ll_bad))
+    ctx.coverage.update({
+        "fold_cases": len(fo), "fold_distinct_traces": len({c[2] for c in fo}),
+        "fold_pulls": sum(len(c[2].split()) for c in fo),
+        "fold_modes": {m: sum(1 for c in fo if c[1].split()[1] == m) for m in "123"},
+        "fold_cases_yielding_error": sum(1 for c in fo if re.search(r">e\d", c[2])),
+        "fold_max_stack": max(int(x) for c in fo for x in re.findall(r"#(\d+),", c[2])),
+        "lldrop_cases": len(ll), "lldrop_distinct_traces": len({c[2] for c in ll}),
+        "lldrop_nothing_freed": sum(1 for c in ll if " f0 " in c[2]),
+    })
+
     # 4. runtime
     jobs, need = [], {}
     for fid, pre, main, expect in fam:
@@ -367,12 +418,14 @@ def run(ctx):
     for fid, _, _, _ in fam:
         kinds[fid.split("/")[0]] = kinds.get(fid.split("/")[0], 0) + 1
     ctx.coverage.update({
-        "evaluations": len(corr) + len(st) + 2 * len(res) + ncalls,
-        "distinct_nontrivial": len({c[1] for c in corr if "C" in c[2]}) + len({c[1] for c in st}) + len(res),
+        "evaluations": len(corr) + len(st) + len(st2) + len(ad) + len(fo) + len(ll) + 2 * len(res) + ncalls,
+        "distinct_nontrivial": len({c[1] for c in corr if "C" in c[2]}) + len({c[1] for c in st}) + len({c[1] for c in st2}) + len({c[1] for c in ad}) + len({c[2] for c in fo}) + len({c[2] for c in ll}) + len(res),
         "rule": "call-classification cases whose real table contains at least one CallDef (distinct requests) + distinct "
-                "Stack scripts + runtime nests (each run at N and 2N iterations)",
+                "Stack scripts (flat and nested) + distinct adapter terms + distinct fold / list-drop traces + runtime nests (each run at N and 2N iterations)",
         "samples": samples + [{"nest": c[0], "program": text[c[0]][:200], "real_table": c[2][:200]} for c in corr[:2]],
-        "traces_validated_against_impl": len(corr) + len(st),
+        "traces_validated_against_impl": len(corr) + len(st) + len(st2) + len(ad) + len(fo) + len(ll),
+        "adapter_terms": len(ad),
+        "nested_stack_scripts": len(st2), "nested_stack_scripts_with_live_inner_stack": nested_live,
         "family_kinds": kinds, "family_size": len(fam), "random_nests": nrand,
         "exact_tables": len([c for c in usable if c[1] == "1"]),
         "tail_nests_narrow": tn_narrow, "tail_nests_wide": tn_wide,
@@ -381,16 +434,23 @@ def run(ctx):
         "stdlib_calldefs": ncalls, "stdlib_not_tailnest": nontail,
         "runtime": {"N": n_iter, "stack_KiB": STACK_KIB, "heap_slack_bytes": HEAP_SLACK, "nests": len(res),
                     "violations": rt_bad, "controls_detected": "%d/%d" % (controls_ok, controls)},
-        "disagreements": bad + st_bad,
+        "disagreements": bad + st_bad + st2_bad + ad_bad + fo_bad + ll_bad,
         "exhaustive": False,
     })
     ctx.assumptions += [
         "Lean model C04/Tco.lean written by hand from jaq-core/src/compile.rs; tied on every run by comparing whole term tables "
         "(hook Filter::verif_terms) on the family + seeded random nests, and all CallDefs of the compiled standard library",
-        "C04/Stack.lean models Stack::next / fold / Drop for List over abstract iterators; Stack::next is tied by traces of the real "
-        "stack.rs (compiled into the harness) on scripted iterators; fold and the list drop are tied only by the runtime probes",
-        "trampoline_bounded assumes size_hint() reports (0, Some(0)) for an exhausted iterator (HintExact); whether jaq's iterator "
-        "combinators satisfy it on a given nest is what the runtime probe measures (live heap at N vs 2N)",
+        "C04/Stack.lean + C04/Nest.lean model Stack::next / Stack::size_hint / fold / Drop for List over abstract iterators; all four are "
+        "tied by traces of the real source files (stack.rs, fold.rs, rc_lazy_list.rs compiled into the harness from the repo's "
+        "working tree) on seeded scripted iterators: flat stacks, stacks of stacks, the three instantiations of fold, list chains "
+        "with shared nodes; once_cell::unsync::Lazy is replaced by a stand-in with the same API (harness/src/bin/c04_rt.rs) whose "
+        "Drop is the node probe",
+        "C04/Run.lean (MayThrow: which constructs hand Err(TailCall) items on, which frames take them) is a may-semantics of "
+        "filter.rs written by hand; values are abstracted; tied to the code by the runtime probes (an escaping TailCall is a RUNERR)",
+        "trampoline_bounded/_tailLast assume the residual after a tail call reports size_hint() == (0, Some(0)); proved for the "
+        "Once/Chain/lazy adapters of `,` as modelled after the standard library sources and compared with the real adapters on seeded "
+        "terms (trampoline_bounded_comma_shapes); for other "
+        "combinators (FlatMap, fold's from_fn) it is what the runtime probe measures (live heap at N vs 2N)",
         "native stack bytes and allocator behaviour are measured (256 KiB thread stack, counting global allocator), not proved",
         "translator: constructs that compile all sub-terms with empty tr (strings, objects, paths, destructuring patterns) are "
         "mapped to the n-ary non-tail node; table indices are then inexact and only the CallDef sequence is compared",
